@@ -6,7 +6,7 @@ import random
 
 from .. import core, genhist, pytrack as pt, sx
 
-THEOREMS = ['C04.serializer_bytes_tied', 'C04.tracker_simulates_machine', 'C04.machine_accepts_under_side_conditions', 'C04.load_addresses_intended_term',
+THEOREMS = ['C04.serializer_bytes_tied', 'C04.interpreters_translated', 'C04.tracker_text_sound', 'C04.tracker_text_is_the_model', 'C04.tracker_text_complete', 'C04.tracker_text_ill_typed', 'C04.tracker_simulates_machine', 'C04.machine_accepts_under_side_conditions', 'C04.load_addresses_intended_term',
             'C04.phase_switch_claim', 'C04.phase_switch_proof', 'C04.publish_leaves_residue']
 
 KF_CLASSES = ('muNotPositive', 'substWF', 'redundantSubst', 'mvWF', 'constraint', 'capture')
@@ -152,7 +152,7 @@ def check_history(rep, claims, calls, trace_ans, mans):
 
 def run(rep, only=None):
     rng = random.Random(rep.seed * 1000003 + 4)
-    ok, detail = core.proof_gate(rep, 'Pi2.Props.C04', THEOREMS)
+    ok, detail = core.proof_gate(rep, 'Pi2.Props.C04b', THEOREMS)
     quick = rep.tier == 'quick'
     N = 70 if quick else 2500
     hist = []
